@@ -223,6 +223,7 @@ type out struct {
 	mu     sync.Mutex
 	w      *bufio.Writer
 	counts map[string]int
+	notes  map[string]int
 	total  int
 }
 
@@ -244,6 +245,12 @@ func (o *out) disagree(class string, named bool, key, desc string, replay any) {
 	b, _ := json.Marshal(map[string]any{"t": "disagree", "key": key, "desc": desc, "replay": replay})
 	o.w.Write(b)
 	o.w.WriteByte('\n')
+}
+
+func (o *out) note(class string) {
+	o.mu.Lock()
+	o.notes[class]++
+	o.mu.Unlock()
 }
 
 func keysName(ks []int) string {
@@ -314,6 +321,11 @@ func (e *env) evalLevel(s *srow, enc string, m tmap) {
 	e.rep.Guard(gk, map[string]any{"script_cbor": hex.EncodeToString(raw)}, func() {
 		var ns common.NativeScript
 		if _, err := gcbor.Decode(raw, &ns); err != nil {
+			if enc != "min" {
+				// whether unusual (but well-formed) encodings decode is not C29's subject
+				e.o.note("undecodable/" + enc)
+				return
+			}
 			key := fmt.Sprintf("decode:s=%s:enc=%s:map=%s", s.Name, enc, m.name)
 			e.rep.Case(h64(key), true)
 			e.o.disagree("decode/"+enc, false, key, fmt.Sprintf("well-formed native script %x does not decode: %v", raw, err),
@@ -627,7 +639,7 @@ func main() {
 	rng := rand.New(rand.NewSource(vh.Seed()))
 	e := &env{rep: rep, ctxs: ctxs, keys: map[int]Key{1: NewKey(rng), 2: NewKey(rng)}, owner: NewKey(rng), txid: make([]byte, 32)}
 	rng.Read(e.txid)
-	e.o = &out{w: bufio.NewWriterSize(os.Stdout, 1<<20), counts: map[string]int{}}
+	e.o = &out{w: bufio.NewWriterSize(os.Stdout, 1<<20), counts: map[string]int{}, notes: map[string]int{}}
 	maps := timeMaps(T, rng)
 	for _, m := range maps {
 		for i := 1; i <= T; i++ {
@@ -727,6 +739,7 @@ func main() {
 	rep.Extra["c29_encodings"] = encs
 	rep.Extra["c29_disagreements_by_class"] = e.o.counts
 	rep.Extra["c29_disagreements_total"] = e.o.total
+	rep.Extra["c29_skipped"] = e.o.notes
 	e.o.w.Flush()
 	rep.Finish()
 }
